@@ -1300,7 +1300,9 @@ def _check_nprod(c, res, mp, M):
                 mp.nprod(f, _iv(mp, rng[0], rng[1], 0), strict=True, **opts)
             finally:
                 mp.prec = 53
-    if c.get("refl") and not via_nsum:
+    if c.get("refl") and not via_nsum and abs(_ref(M, got) - exact) > M.mpf(2) ** -6 * abs(exact):
+        # grossly wrong (not a convergence question): the factors of a product over [-inf, b] were taken at +k
+        # (repaired in /repo; kept as a regression bucket)
         bucket = "nprod:neg_inf_range"
         rerun = None
     elif "e" in _mclass(meth).split("+"):
